@@ -1,8 +1,10 @@
 from ..framework import Spec
 from ..ties_sys import sys_tie, cli_tie, scenario_tie
-from ..scenarios import gen_cond_scenario
+from ..scenarios import gen_cond_scenario, gen_small_space_window_scenario
 
 SPEC = Spec(pid='C03', coq_needs=['Base', 'Layout', 'LayoutProofs', 'Program', 'Properties/C03'],
             ties=[sys_tie('C03'), cli_tie('C03'),
                   # muting decided inside nested conditionals: muted bytes read as fill
-                  scenario_tie('cond_programs', gen_cond_scenario, 150, 3000)])
+                  scenario_tie('cond_programs', gen_cond_scenario, 150, 3000),
+                  # explicit windows that end at / above the top of a small address space
+                  scenario_tie('small_space_windows', gen_small_space_window_scenario, 100, 1500)])
